@@ -793,7 +793,7 @@ def classify(v):
 ASSUME = ['IR of the unmodified library sources (clang++-14 -O1 -D_GLIBCXX_ASSERTIONS -DNDEBUG), libstdc++/boost header code included',
           'environment models: std::locale = classic, allocation never fails, iostream sinks discard/record',
           'irsym executor (validated per run against the native build on concrete vectors)',
-          'values: integers of 2-3 decimal digits, strings of 2-3 bytes from the printable set without - = , ! [ ] ; quotes backslash #; floating point destinations not covered']
+          'values: integers of 1-3 decimal digits, strings of 2-3 bytes (thorough tier, widened family: up to 4 digits / 4 bytes) from the printable set without - = , ! [ ] ; quotes backslash #; floating point destinations not covered']
 
 
 def main(prop, tier, only=None):
